@@ -139,7 +139,7 @@ func (c *Case) elMatches(e expEl, g obsLine) bool {
 	if blank(e.s) {
 		return strings.TrimSpace(g.text) == ""
 	}
-	return g.text == e.s
+	return matchHoles(e.s, g.text)
 }
 
 // compare returns "" when the observed paragraphs are the expected text, else a description of the first difference
@@ -189,23 +189,23 @@ func compare(c *Case, exp string, got []obsLine) (diff string, imgDiff string) {
 	case j >= m && els[i].pic:
 		return "", fmt.Sprintf("paragraph %d: missing, expected the picture %q of line %d (expected %d paragraphs, got %d)", j, els[i].s, els[i].line, nreq, m)
 	case j >= m:
-		return fmt.Sprintf("paragraph %d: missing, expected %q of line %d (expected %d paragraphs, got %d)", j, els[i].s, els[i].line, nreq, m), ""
+		return fmt.Sprintf("paragraph %d: missing, expected %q of line %d (expected %d paragraphs, got %d)", j, showExp(els[i].s), els[i].line, nreq, m), ""
 	}
 	e, g := els[i], got[j]
 	switch {
 	case g.other != "":
-		return fmt.Sprintf("paragraph %d: body element %s, expected %q", j, g.other, e.s), ""
+		return fmt.Sprintf("paragraph %d: body element %s, expected %q", j, g.other, showExp(e.s)), ""
 	case e.pic && !g.pic:
 		return "", fmt.Sprintf("paragraph %d: expected the picture %q (line %d), got %s", j, e.s, e.line, show(g))
 	case e.pic:
 		im := c.Data.Images[e.s]
 		return "", fmt.Sprintf("paragraph %d: expected picture %q (%dx%d px = %dx%d EMU, no text), got %s", j, e.s, im.W, im.H, im.W*9525, im.H*9525, show(g))
 	case g.pic:
-		return fmt.Sprintf("paragraph %d: picture paragraph, expected text %q (line %d)", j, e.s, e.line), ""
+		return fmt.Sprintf("paragraph %d: picture paragraph, expected text %q (line %d)", j, showExp(e.s), e.line), ""
 	case blank(e.s):
 		return fmt.Sprintf("paragraph %d: expected a blank line, got %q", j, g.text), ""
 	}
-	return fmt.Sprintf("paragraph %d: expected %q, got %q", j, e.s, g.text), ""
+	return fmt.Sprintf("paragraph %d: expected %q, got %q", j, showExp(e.s), g.text), ""
 }
 
 // ---------------------------------------------------------------------------------------------
@@ -284,14 +284,14 @@ func run(c Case) *kit.Result {
 		// the history: loads whose outcome the final phase must make irrelevant (errors of these loads are allowed)
 		for i, ld := range c.Pre {
 			if src, ok := c.loadSource(ld, srcs); ok {
-				where = fmt.Sprintf("LoadTemplate %s (history load %d)", tplName(ld.T), i)
-				eng.LoadTemplate(tplName(ld.T), src)
+				where = fmt.Sprintf("LoadTemplate %s (history load %d)", c.name(ld.T), i)
+				eng.LoadTemplate(c.name(ld.T), src)
 			}
 		}
 		// final phase: every template of the chain, base to child, with its final source; then the siblings
 		for i, s := range srcs {
-			if _, err = eng.LoadTemplate(tplName(i), s); err != nil {
-				where = "LoadTemplate " + tplName(i)
+			if _, err = eng.LoadTemplate(c.name(i), s); err != nil {
+				where = "LoadTemplate " + c.name(i)
 				return
 			}
 		}
@@ -380,9 +380,9 @@ func run(c Case) *kit.Result {
 			ctx = fmt.Sprintf("render %d of the sequence [%s] on one engine: %s", si+1, strings.Join(ns, " "), ctx)
 		}
 		if d != "" {
-			res.Fail("C16.T1", "%s (%s)\ntemplates: %q%s\ndata: %s\nexpected text: %q\ngot paragraphs: [%s]", d, ctx, all, c.historyBrief(srcs), dataBrief(&c), strings.ReplaceAll(sp.exp, "\x00", "¤"), strings.Join(gs, ", "))
+			res.Fail("C16.T1", "%s (%s)\ntemplates: %q%s\ndata: %s\nexpected text: %q\ngot paragraphs: [%s]", d, ctx, all, c.historyBrief(srcs), dataBrief(&c), showExp(sp.exp), strings.Join(gs, ", "))
 		} else {
-			res.Fail("C16.T2", "%s (%s)\ntemplates: %q\nexpected text: %q\ngot paragraphs: [%s]", idiff, ctx, all, strings.ReplaceAll(sp.exp, "\x00", "¤"), strings.Join(gs, ", "))
+			res.Fail("C16.T2", "%s (%s)\ntemplates: %q\nexpected text: %q\ngot paragraphs: [%s]", idiff, ctx, all, showExp(sp.exp), strings.Join(gs, ", "))
 		}
 		return res
 	}
@@ -402,9 +402,9 @@ func (c *Case) historyBrief(srcs []string) string {
 			continue
 		}
 		if ld.V == 0 {
-			sb.WriteString(fmt.Sprintf(" Load(%s, final);", tplName(ld.T)))
+			sb.WriteString(fmt.Sprintf(" Load(%s, final);", c.name(ld.T)))
 		} else {
-			sb.WriteString(fmt.Sprintf(" Load(%s, earlier version %q);", tplName(ld.T), src))
+			sb.WriteString(fmt.Sprintf(" Load(%s, earlier version %q);", c.name(ld.T), src))
 		}
 	}
 	return sb.String()
@@ -670,6 +670,21 @@ func describe(res *kit.Result, c *Case, ip *interp, exps []string) {
 	lab(types["f"], "data:float")
 	lab(types["b"], "data:bool")
 	lab(types["n"], "data:nil")
+	// numbers that were inserted, by class (edge.go)
+	ns := ip.num
+	lab(ns.floatExact, "float:text-demanded-exactly")
+	lab(ns.longDigits, "float:15+digits-exact")
+	lab(ns.floatHole, "float:judged-by-parsing-back")
+	lab(ns.negZero, "float:negative-zero")
+	lab(ns.whole, "float:whole<2^53")
+	lab(ns.band, "float:whole-2^53..2^63")
+	lab(ns.beyond, "float:>=2^63")
+	lab(ns.tiny, "float:tiny")
+	lab(ns.nonFinite, "float:NaN-or-Inf")
+	lab(ns.intEdge32, "int:>=2^31-1")
+	lab(ns.intEdge53, "int:>=2^53-1")
+	lab(ns.intEdge63, "int:at-int64-bounds")
+	lab(ns.negativeInt, "int:negative")
 	res.Label("chain:" + strconv.Itoa(1+len(c.Children)))
 	res.Label("entry:" + []string{"RenderToDocument", "RenderTemplateToDocument"}[c.Entry&1])
 	allBlank := true
@@ -719,6 +734,30 @@ func describe(res *kit.Result, c *Case, ip *interp, exps []string) {
 			}
 		}
 	}
+	// names as users write them
+	blockUnusual, blockUnusualOverridden, wordEdge := false, false, false
+	for _, n := range c.Base {
+		if n.K == KBlock && !reBlockPlain.MatchString(n.S) {
+			blockUnusual = true
+			for _, k := range order {
+				if resolve(k, n.S) != "t0" {
+					blockUnusualOverridden = true
+				}
+			}
+		}
+	}
+	c.walk(func(n Node, _ int, _ bool) {
+		switch n.K {
+		case KVar, KField, KIf, KEach:
+			if !reIdent.MatchString(n.S) {
+				wordEdge = true
+			}
+		}
+	})
+	lab(blockUnusual, "name:block-beyond-identifier")
+	lab(blockUnusualOverridden, "name:block-beyond-identifier-override-rendered")
+	lab(c.customNames(), "name:templates-beyond-identifier")
+	lab(wordEdge, "name:word-beyond-identifier")
 	lab(seqDiffers, "seq:block-resolved-differently-later")
 	lab(seqDefaultAfter, "seq:block-default-after-override")
 	lab(seqBaseAfter, "seq:base-after-derived")
@@ -809,6 +848,20 @@ func fixedCases() []Case {
 		{Base: []Node{{K: KLit, S: "Report for "}, {K: KVar, S: "owner"}, {K: KLit, S: "\nleft "}, {K: KImage, S: "logo"}, {K: KLit, S: " middle "}, {K: KVar, S: "owner"}, {K: KLit, S: " "}, {K: KImage, S: "logo"},
 			{K: KLit, S: " right\na "}, {K: KImage, S: "logo"}, {K: KLit, S: " b "}, {K: KImage, S: "chart"}, {K: KLit, S: " c\nend"}},
 			Data: Data{Vars: map[string]Val{"owner": s("Ann")}, Images: map[string]gen.Img{"logo": {Fmt: "png", W: 7, H: 5, Name: "logo"}, "chart": {Fmt: "png", W: 11, H: 8, Pat: 3, Name: "chart"}}}},
+		// the syntax summary of the package README writes {{extends "基础模板"}} and {{#block "块名"}}: quoted names in
+		// the user's own language, here with a space and a dot as well, defined in the base and redefined below it
+		{Base: []Node{{K: KLit, S: "报告 "}, {K: KVar, S: "title"}, {K: KLit, S: "\n"}, {K: KBlock, S: "块名", A: []Node{{K: KLit, S: "默认内容"}}}, {K: KLit, S: "\n"},
+			{K: KBlock, S: "side bar", A: []Node{{K: KLit, S: "default side bar"}}}, {K: KLit, S: "\n"}, {K: KBlock, S: "foot.note", A: []Node{{K: KLit, S: "default note "}, {K: KVar, S: "city"}}}},
+			Children: [][]Override{{{Name: "块名", Body: []Node{{K: KLit, S: "子模板内容 "}, {K: KVar, S: "title"}}}}, {{Name: "side bar", Body: []Node{{K: KLit, S: "side bar of the grandchild"}}}}},
+			Names:    []string{"基础模板", "销售 报告", "sales.v2"}, Seq: []int{1, 0},
+			Data: Data{Vars: map[string]Val{"title": s("Q3")}}},
+		// numbers of every documented type at the ends of their ranges, as variable, item field and item
+		{Base: []Node{{K: KVar, S: "qty"}, {K: KLit, S: " / "}, {K: KVar, S: "code"}, {K: KLit, S: " / "}, {K: KVar, S: "price"}, {K: KLit, S: " / "}, {K: KVar, S: "memo"}, {K: KLit, S: "\n"},
+			{K: KEach, S: "rows", A: []Node{{K: KField, S: "colA"}, {K: KLit, S: "="}, {K: KField, S: "colB"}, {K: KLit, S: ";"}}}, {K: KLit, S: "\n"},
+			{K: KEach, S: "nums", A: []Node{{K: KLit, S: "["}, {K: KThis}, {K: KLit, S: "]"}}}},
+			Data: Data{Vars: map[string]Val{"qty": {T: "i", S: "-9223372036854775808"}, "code": {T: "l", S: "9223372036854775807"}, "price": {T: "f", S: "0.30000000000000004"}, "memo": {T: "f", S: "-0"}},
+				Lists: map[string][]Val{"rows": {{T: "m", M: map[string]Val{"colA": {T: "f", S: "1e21"}, "colB": {T: "f", S: "4611686018427387904"}}}, {T: "m", M: map[string]Val{"colA": {T: "f", S: "5e-324"}, "colB": {T: "i", S: "2147483648"}}}},
+					"nums": {{T: "f", S: "42"}, {T: "f", S: "1234567890123456789"}, {T: "l", S: "-9007199254740993"}, {T: "f", S: "1.7976931348623157e308"}}}}},
 	}
 }
 
@@ -816,15 +869,16 @@ func TestC16(t *testing.T) {
 	openKF = kit.OpenFindings("C16")
 	kit.Main(t, kit.Spec[Case]{
 		ID: "C16", Level: "exploration",
-		Rule: "template family drawn as ASTs from the documented grammar: a chain of 1-3 levels (literals incl. newlines/braces, variables, if / if-else, each with fields/this/@index/@first/@last/inner if/nested each to depth 3, blocks + extends, image placeholders alone on a line and 1-3 of them - mostly the same image again - inside a line of literals and variables) and 0-2 sibling templates that extend any template of the family and redefine other subsets of its blocks; typed data (strings incl. brace-bearing and multi-line, int, int64, float64, bool, nil; conditions true/false/absent; lists of maps / scalars, empty, absent); serialised to text, loaded on a fresh engine by a drawn load schedule (optional history: child before its base, an earlier version of a template later replaced, identical re-loads; then always the whole chain base-to-child with the final sources, then the siblings); then a drawn sequence of 0-3 renders of any templates of the family (child then base, sibling then sibling, ...) followed by the render of the last chain template (several times, data set in two orders, when a value names another supplied name) - EVERY render is compared with the reference text of the template rendered; values with braces and whole directive tokens (placeholders naming other supplied variables, conditions, lists, fields, unknown names; {{/if}}, {{else}}, {{/each}}, ...) occur in every position and are judged exactly outside the (position, directive kind) classes of the open re-scan findings; non-trivial = >=2 directive kinds among {var, if, each, block, image} and (a loop over >=2 items or a conditional with an else branch) and the data has both a present and an absent name used by the template; distinct = distinct (AST skeleton incl. list names, literal classes, sibling overrides and render sequence, entry point, per-name data type/presence/list-length vector, set of schedule classes)",
+		Rule: "template family drawn as ASTs from the documented grammar: a chain of 1-3 levels (literals incl. newlines/braces, variables, if / if-else, each with fields/this/@index/@first/@last/inner if/nested each to depth 3, blocks + extends, image placeholders alone on a line and 1-3 of them - mostly the same image again - inside a line of literals and variables) and 0-2 sibling templates that extend any template of the family and redefine other subsets of its blocks; typed data (strings incl. brace-bearing and multi-line; int and int64 over their whole range with the 32-, 53- and 64-bit boundaries; float64 over its whole range - short decimals, many digits, whole numbers, both zeros, 2^53..2^63 and beyond, tiny, NaN, infinities; bool, nil; conditions true/false/absent; lists of maps / scalars, empty, absent); names: block and template names are quoted strings (identifier-like, or - about half of the families - CJK, blanks, dots, dashes, digits first, punctuation; defined in the base and redefined under the same name below it), variable / condition / list / field names are ASCII words incl. a digit or underscore first, digits only, one character, names differing by case only; serialised to text, loaded on a fresh engine by a drawn load schedule (optional history: child before its base, an earlier version of a template later replaced, identical re-loads; then always the whole chain base-to-child with the final sources, then the siblings); then a drawn sequence of 0-3 renders of any templates of the family (child then base, sibling then sibling, ...) followed by the render of the last chain template (several times, data set in two orders, when a value names another supplied name) - EVERY render is compared with the reference text of the template rendered; values with braces and whole directive tokens (placeholders naming other supplied variables, conditions, lists, fields, unknown names; {{/if}}, {{else}}, {{/each}}, ...) occur in every position and are judged exactly outside the (position, directive kind) classes of the open re-scan findings; non-trivial = >=2 directive kinds among {var, if, each, block, image} and (a loop over >=2 items or a conditional with an else branch) and the data has both a present and an absent name used by the template; distinct = distinct (AST skeleton incl. list names, literal classes, sibling overrides and render sequence, entry point, per-name data type/presence/list-length vector, set of schedule classes)",
 		Gen:  genCase, Run: run, Findings: findings, Fixed: fixedCases,
 		Assumptions: []string{
-			"names of variables, conditions, lists, item fields, blocks and images are pairwise distinct ASCII identifiers and none is this/else/index/first/last (the documents are silent on shadowing)",
+			"names of variables, conditions, lists, item fields and images are pairwise distinct words over ASCII letters, digits and the underscore (what {{name}} is parsed as; a digit or underscore may come first) and none is this/else/index/first/last (the documents are silent on shadowing); block names and template names are quoted strings: any characters but the double quote, braces and line breaks, pairwise distinct",
 			"conditionals are not nested in conditionals; conditionals inside a loop test boolean fields of the current item only (string/number truthiness is not documented)",
 			"literal text never forms a directive: no literal token ends with '{' or starts with '}' except a lone brace placed directly around a directive; '{{ x }}' with inner blanks is literal text",
 			"values never complete a directive together with their surroundings: no value starts with '}' and every '}}' inside a value follows a character that cannot belong to a name; whole directive tokens inside a value are text",
 			"the engine history before the final base-to-child load of the chain carries no meaning (a load defines the named template anew); errors of history loads are ignored, the final loads must succeed",
-			"floats are drawn through decimal texts of 1-3 fractional digits (last digit non-zero), so the expected rendering is that text and no formatting convention is assumed; nil renders as nothing",
+			"integers (int, int64) are inserted as their decimal text over the whole range; nil renders as nothing",
+			"the documents name no textual form for float64 values: a float that is finite, not a whole number, with 1e-4 <= |f| < 1e15 is expected as its shortest decimal text (every notation agrees there); for every other float (whole numbers, both zeros, >= 1e15, < 1e-4, NaN, infinities) the clause is restricted to: the text inserted at that place is a decimal numeral (or NaN / Inf) that parses back to the same float64, sign of zero included - so 4611686018427387904 and 4611686018427388000 and 4.611686018427388e+18 are all accepted for 2^62, and 0 is not accepted for -0",
 			"a line consisting only of blanks/tabs is compared as empty and an all-blank output as no paragraphs",
 			"every image placeholder has image data; {{this}} is only used over lists of scalars",
 			"a line with image placeholders is observed as the sequence of its text segments (each in a paragraph of its own, unchanged) and pictures in line order; a segment of blanks only may or may not get a paragraph",
@@ -835,6 +889,9 @@ func TestC16(t *testing.T) {
 			"data:has-{{-judged-exactly": 0.2, "data:directive-token-judged-exactly": 0.12, "var:value-names-supplied-var": 0.05,
 			"sched:child-first": 0.08, "sched:base-replaced": 0.08, "sched:reload-same": 0.12, "sched:replaced": 0.15, "sched:none": 0.25,
 			"tpl:siblings": 0.15, "seq:block-default-after-override": 0.06, "seq:base-after-derived": 0.04, "seq:block-resolved-differently-later": 0.12, "seq:0": 0.4,
-			"image:inside-text-line": 0.02, "image:same-twice-on-line": 0.012},
+			"image:inside-text-line": 0.02, "image:same-twice-on-line": 0.012,
+			"float:text-demanded-exactly": 0.05, "float:judged-by-parsing-back": 0.03, "float:negative-zero": 0.002, "float:whole-2^53..2^63": 0.005, "float:>=2^63": 0.002, "float:tiny": 0.002, "float:whole<2^53": 0.002,
+			"int:>=2^31-1": 0.03, "int:>=2^53-1": 0.015, "int:at-int64-bounds": 0.003,
+			"name:block-beyond-identifier": 0.12, "name:block-beyond-identifier-override-rendered": 0.08, "name:templates-beyond-identifier": 0.1, "name:word-beyond-identifier": 0.3},
 	})
 }
